@@ -213,6 +213,69 @@ func Faults(v *vrt.Ctx) {
 	v.Cover("C13/history-done")
 }
 
+// StopFault: an explicit transaction whose commit fails at Stop (or whose
+// statement fails before). The failed operation reports the error, the
+// transaction is ended exactly once and is not used again, and with the fault
+// gone a new explicit transaction can be started at once, its writes become
+// visible at Stop, those of the failed one never. (Only explicit
+// transactions are used after the first one ended, so the single-operation
+// mode of finding F19 plays no part here.)
+func StopFault(v *vrt.Ctx) {
+	ctx := context.Background()
+	srv := pgfake.New()
+	store := postgres.NewPgDb().WithConnection(srv)
+	store.SetPrefix(db.DATATYPE_USERDATA)
+	budget := 1
+	faulted := false
+	srv.Fail = func(op string) bool {
+		if budget > 0 && v.Bool("fault-"+op) {
+			budget--
+			faulted = true
+			return true
+		}
+		return false
+	}
+	v.Assume(store.Start(ctx) == nil)
+	perr := store.Put(ctx, []byte("ka"), []byte("1"))
+	serr := store.Stop(ctx)
+	v.Assume(faulted)
+	v.Assert(perr != nil || serr != nil, "C13/failed-step-reports-error")
+	budget = 0
+	check := func() {
+		v.Assert(srv.OpenTxs() <= 1, "C13/no-transaction-left-open")
+		for _, t := range srv.Txs {
+			v.Assert(!t.UsedAfter, "C13/transaction-used-after-its-end")
+			if t.Ended {
+				v.Assert(t.Committed+t.RolledBack == 1, "C13/transaction-ended-exactly-once")
+			}
+		}
+	}
+	check()
+	if perr != nil {
+		// the statement failed: the transaction is over (rolled back by the
+		// operation that failed); Stop had nothing to commit
+		v.Cover("C13/stopfault-statement")
+	} else {
+		v.Cover("C13/stopfault-commit")
+	}
+	v.Assert(srv.OpenTxs() == 0, "C13/no-transaction-left-open")
+	// the store is not wedged: a new explicit transaction starts at once
+	v.Assert(store.Start(ctx) == nil, "C13/start-works-when-no-transaction-is-open")
+	v.Assert(store.Put(ctx, []byte("kb"), []byte("2")) == nil, "C13/store-usable-after-faults")
+	v.Assert(store.Stop(ctx) == nil, "C13/store-usable-after-faults")
+	check()
+	v.Assert(srv.OpenTxs() == 0, "C13/no-transaction-left-open")
+	// what is committed is exactly the second transaction's write
+	fresh := postgres.NewPgDb().WithConnection(srv)
+	fresh.SetPrefix(db.DATATYPE_USERDATA)
+	_, gerr := fresh.Get(ctx, []byte("ka"))
+	v.Assert(gerr != nil && db.IsNotFound(gerr), "C13/unacknowledged-writes-are-absent")
+	val, gerr := fresh.Get(ctx, []byte("kb"))
+	v.Assert(gerr == nil && string(val) == "2", "C13/acknowledged-writes-survive")
+	v.Cover("C13/stopfault-done")
+}
+
 var Harnesses = map[string]func(*vrt.Ctx){
+	"StopFault": StopFault,
 	"Faults": Faults,
 }
